@@ -411,8 +411,8 @@ def check_training(model, screen, res, given=None):
     if model == INT:
         ctrl = [(s, t[0], t[1]) for s, t, o in rows if all(x == -1 for x in t)]
         if [g[:3] for g in got] == ctrl:
-            return ("interaction-trains-on-all-control-rows: trained on exactly the %d all-control row(s) instead of the %d observed "
-                    "combination row(s)" % (len(ctrl), len(doc)))
+            return ("interaction-trains-on-all-control-rows: trained on exactly the %d all-control row(s) (ids (sample,-1,-1)) of the observed "
+                    "subset and on none of its %d combination row(s)" % (len(ctrl), len(doc)))
     return "%s-training-rows-differ: %d rows trained, %d documented" % (name, len(got), len(doc))
 
 
@@ -495,11 +495,11 @@ def gen_cfg(rng, sd):
 def gen(rng, tier):
     q = tier == "quick"
     # relational cases
-    for i in range(150 if q else 1500):
+    for i in range(260 if q else 2000):
         sd = gen_structured(rng, tier) if rng.random() < 0.7 else gen_unstructured(rng, tier)
         yield dict(kind="rel", model=rng.choice([SDC, INT]), screen=sd, cfg=gen_cfg(rng, sd))
     # refusal cases
-    for i in range(120 if q else 1200):
+    for i in range(200 if q else 1500):
         sd = gen_structured(rng, tier)
         model = rng.choice([SDC, INT])
         via = rng.choice([0, 1])
@@ -517,7 +517,7 @@ def gen(rng, tier):
             sd["rows"][i]["o"] = planted
         yield dict(kind="refuse", model=model, via=via, screen=sd, planted=planted)
     # _add_observations called directly (correspondence only)
-    for i in range(30 if q else 300):
+    for i in range(50 if q else 400):
         sd = gen_structured(rng, tier) if rng.random() < 0.6 else gen_unstructured(rng, tier)
         if rng.random() < 0.3:
             for r in sd["rows"]:
@@ -525,7 +525,7 @@ def gen(rng, tier):
                     r["o"] = r["r"]
         yield dict(kind="inner", model=rng.choice([SDC, INT]), screen=sd)
     # the command line entry point
-    for i in range(12 if q else 100):
+    for i in range(16 if q else 120):
         sd = gen_structured(rng, tier)
         yield dict(kind="cli", model=rng.choice([SDC, INT]), screen=sd, seed=rng.randint(0, 1000))
 
@@ -657,7 +657,7 @@ def run(desc):
                 for st, f in da:
                     if st == "observation-reads-downstream" and f != "0":
                         pred = "downstream-reads-observations: distance / scoring / selection read .observations %s time(s)" % f
-            feats += ["downstream-" + da[-1][0] + ("-raised" if da[-1][1].startswith("raised") else "")]
+            feats += ["downstream-" + (da[-1][0] + "-raised" if da[-1][1].startswith("raised") else "complete")]
             feats += ["scorer-" + desc["cfg"]["scorer"]] + (["batch"] if desc["cfg"]["batch"] else [])
         else:
             ca, cb = cli_run(model, sa, desc["seed"]), cli_run(model, sb, desc["seed"])
@@ -793,9 +793,72 @@ def signature(desc, res):
     return p.split(":")[0] if p else None
 
 
+def _fine_signature(desc):
+    """signature plus, for the mask defect, whether an all-control row is among the trained rows"""
+    try:
+        r = run(desc)
+    except Exception:  # noqa
+        return None
+    p = r.get("pred")
+    if not p:
+        return None
+    return (signature(desc, r), "exactly the 0 all-control" in p)
+
+
 def shrink(desc):
+    """drop one row at a time, keeping the same predicate failure (same signature)"""
     sd = desc["screen"]
     rows = sd["rows"]
+    if len(rows) <= 1:
+        return
+    sig0 = _fine_signature(desc)
     for i in range(len(rows)):
-        if len(rows) > 1:
-            yield dict(desc, screen=dict(sd, rows=rows[:i] + rows[i + 1:]))
+        cand = dict(desc, screen=dict(sd, rows=rows[:i] + rows[i + 1:]))
+        if sig0 is None or _fine_signature(cand) == sig0:
+            yield cand
+
+
+def extra(tier):
+    """Self-test of the detection: realistic leaks are planted by monkeypatching inside this process
+    (nothing under /repo is touched) and the property predicate must report each of them."""
+    import random
+
+    from batchie import core
+    from batchie import data as D
+    from batchie.scoring import size as sz
+
+    impl_flags()
+    rng = random.Random(404)
+    descs = []
+    while len(descs) < (8 if tier == "quick" else 24):
+        sd = gen_structured(rng, tier)
+        descs.append(dict(kind="rel", model=[SDC, INT][len(descs) % 2], screen=sd, cfg=dict(gen_cfg(rng, sd), scorer="size")))
+
+    def sigs():
+        out = set()
+        for d in descs:
+            r = run(d)
+            if r.get("pred"):
+                out.add(signature(d, r))
+        return out
+
+    def whole(self):
+        return self.subset(np.ones(self.size, dtype=bool))
+
+    def noguard(self, data):
+        self._add_observations(data)
+
+    def peek(self, plates, distance_matrix, samples, rng, progress_bar):
+        return {k: float(np.nansum(np.nan_to_num(p.observations, posinf=9.0, neginf=-9.0))) + p.size for k, p in plates.items()}
+
+    res = []
+    with mock.patch.object(D.Screen, "subset_observed", whole), mock.patch.object(core.BayesianModel, "add_observations", noguard):
+        got = sigs()
+    res.append(("detects: training on the whole screen instead of subset_observed()", "noninterference-training-data" in got, sorted(got)))
+    with mock.patch.object(core.BayesianModel, "add_observations", noguard):
+        got = sigs()
+    res.append(("detects: add_observations without the masked-row guard", {"sdc-accepts-masked-rows", "interaction-accepts-masked-rows"} <= got, sorted(got)))
+    with mock.patch.object(sz.SizeScorer, "score", peek):
+        got = sigs()
+    res.append(("detects: a scorer that reads plate.observations", bool({"noninterference-scores", "downstream-reads-observations"} & got), sorted(got)))
+    return res
